@@ -385,7 +385,25 @@ def rule_tariff_choice(ck, rid="C17.S2"):
                        bad=f"without a tariff argument {q} prices with {sorted(missing)}", sink=f"{q}:tariff-default")
 
 
+def rule_stateless(ck, rid="C17.S1"):
+    """a price lookup is a function of the queried instant and the immutable tables: the lookup methods keep no cursor / cache on the
+    tariff object (a lookup would otherwise depend on the order of earlier lookups: out-of-order queries, midnight crossings)"""
+    from ..rules import state_writes
+    repo = ck.repo
+    n = 0
+    for q in ("TimeOfUseTariff.get_tariff", "TimeOfUseTariff.get_tariffs", "TimeOfUseTariff._get_tariff_schedule", "TimeOfUseTariff.get_demand_charge"):
+        f = repo.fn(q, optional=True)
+        if f is None:
+            continue
+        n += 1
+        w = [(nd, p, t) for nd, k, p, t in state_writes(flow_of(f)) if p.startswith("self.")]
+        ck.require(not w, rid, f, w[0][2] if w else q, ok="no state kept between lookups",
+                   bad=f"{q} stores `{w[0][1] if w else ''}` on the tariff object: the price returned depends on earlier queries", sink=f"stateless:{q}")
+    ck.floor(rid, n, 3, "lookup methods of TimeOfUseTariff")
+
+
 def run(ck):
+    ck.attempt(rule_stateless)
     ck.attempt(rule_tariff_choice)
     ck.attempt(rule_tables)
     ck.attempt(rule_schedule_parse)
